@@ -18,8 +18,9 @@ ASSUMPTIONS = ['the bundled table is read by an independent reader (split on whi
 def prop_table(ctx, case):
     from pykdebugparser.traces_parser import TracesParser
     by_id, by_name = kmodel.code_table(REPO_ROOT)
+    EV.new_traces_parser()
+    parser = EV.new_traces_parser()       # the tables must still be clean after parsers have been built
     fams = EV.decodable_names()
-    parser = EV.new_traces_parser()
     registered = set(parser.handlers)
     union = set()
     for fam, ns in fams.items():
